@@ -83,6 +83,27 @@ theorem strict_parse_implies_clean_extra_partial (toks : List TagName)
     (hr : parses extraEnv Opts.restricted toks = true) : audit extraEnv toks = .ok Report.clean :=
   restricted_clean consistent_extra hr
 
+
+/-- **The lexer never leaves tag tokens inside a comment, nor an `enddoc` after a `doc` token**: in
+`lexTags src` a `comment` token is followed by `endcomment` or by nothing, and no `enddoc` token
+follows a `doc` token (a closed `doc…enddoc` is one DOC token). -/
+theorem lexer_output_shaped (src : List TagName) : lexShaped (lexTags src) = true := lexTags_shaped src
+
+/-- **Sentence 2 for sources**: if the tags the lexer yields for a source are accepted by the strict
+parser's grammar with only the two *listed* behaviours switched off (skipping after an extraneous
+`else`; bare `break`/`continue`) then nothing is reported.  The third switch of the restricted
+grammar is discharged by `lexer_output_shaped`. -/
+theorem source_strict_parse_implies_clean_partial (tbl : EnvTable) (hc : consistent tbl = true)
+    (src : List TagName) (h : parses tbl ⟨false, false, true⟩ (lexTags src) = true) :
+    audit tbl (lexTags src) = .ok Report.clean := by
+  have hrun := parses_run h
+  have h2 := noskip_run tbl false false (lexTags src) [] (lexTags_shaped src) rfl
+    (fun f hf => by cases hf) hrun
+  refine restricted_clean hc ?_
+  unfold parses
+  rw [show Opts.restricted = (⟨false, false, false⟩ : Opts) from rfl, h2]
+  exact beq_self_eq_true _
+
 /-! ## Sentence 3 — unknown tag names and block tags without an end tag are always reported -/
 
 /-- **Unknown tag names are always reported**: a name in the token list that is not a registry key,
@@ -128,6 +149,24 @@ theorem unclosed_reported (tbl : EnvTable) (toks : List TagName) (b : TagName) (
   simp only [List.mem_append, List.mem_reverse]
   exact this.symm
 
+
+/-- **Counting form**: a block tag that occurs more often than its end tag is in `unclosed_tags`
+(whatever the order, whatever else is in the template). -/
+theorem unclosed_reported_count (tbl : EnvTable) (toks : List TagName) (b : TagName)
+    (hblock : (blockTagsOf tbl toks).contains b = true) (hcount : toks.count b > toks.count b.endOf) :
+    ∃ r, audit tbl toks = .ok r ∧ b ∈ r.unclosed := by
+  obtain ⟨⟨st, r⟩, h⟩ := loop_ok tbl (fun t => (blockTagsOf tbl toks).contains t)
+    (fun t => (endTagsOf toks).contains t) toks [] {}
+  have hEnd : ∀ t, (fun t => (endTagsOf toks).contains t) t = true → t.isEnd = true := by
+    intro t ht
+    have := List.contains_iff_mem.mp ht
+    exact (List.mem_filter.mp this).2
+  have := loop_unclosed_count tbl _ _ b hEnd hblock toks [] {} st r
+    (Or.inr (by simpa using hcount)) h
+  refine ⟨_, by unfold audit; simp only [h]; rfl, ?_⟩
+  simp only [List.mem_append, List.mem_reverse]
+  exact this.symm
+
 /-- every registered block tag is a block tag for the audit, so `unclosed_reported` applies to it -/
 theorem registered_block_is_block (tbl : EnvTable) (toks : List TagName) (b : TagName)
     (h : (registeredBlocks tbl).contains b = true) : (blockTagsOf tbl toks).contains b = true := by
@@ -156,6 +195,11 @@ example : (blockTagsOf defaultEnv [nm "for"]).contains (nm "for") = true := by d
 -- the lexer model swallows comment bodies, raw and doc blocks
 example : lexTags [nm "comment", nm "if", nm "comment", endNm "comment", endNm "comment", nm "raw", nm "if", endNm "raw", nm "doc"]
     = [nm "comment", endNm "comment", nm "doc"] := by decide +kernel
+example : lexShaped [nm "comment", endNm "comment", nm "doc", nm "if"] = true := by decide +kernel
+example : parses defaultEnv ⟨false, false, true⟩ (lexTags [nm "comment", nm "if", endNm "comment", nm "for", nm "break", endNm "for"]) = true := by
+  decide +kernel
+example : [nm "if", nm "if", endNm "if"].count (nm "if") > [nm "if", nm "if", endNm "if"].count (nm "if").endOf := by
+  decide +kernel
 -- the nesting limit is part of the grammar
 example : strictParses defaultEnv (List.replicate 31 (nm "if") ++ List.replicate 31 (endNm "if")) = false := by
   decide +kernel
